@@ -3,6 +3,7 @@ package checks
 import (
 	"bytes"
 	"context"
+	"encoding/binary"
 	"errors"
 	"flag"
 	"fmt"
@@ -36,7 +37,7 @@ type c15dev struct {
 	qResult   uintptr
 	status    uint64
 	outLen    uint32
-	content   int // 0 quote, 1 zeros, 2 leave the TD report in place
+	content   int // 0 quote, 1 zeros, 2 leave the TD report in place, 3-5 self-describing contents
 	quote     []byte
 
 	calls     []string
@@ -82,6 +83,35 @@ func (d *c15dev) Ioctl(cmd uintptr, arg any) (uintptr, error) {
 		case 1:
 			for i := range h.Data {
 				h.Data[i] = 0
+			}
+		case 3, 4, 5:
+			// contents that describe themselves: what the device wrote is what the caller gets, whatever it looks like.
+			// 3 / 4: a quote-generation-service response frame (big-endian total, version 1, type 1, sizes, error 0, id
+			// size 0 / 16, quote size) whose every size agrees with OutLen; 5: a little-endian length prefix
+			for i := range h.Data {
+				h.Data[i] = 0
+			}
+			n := int(d.outLen)
+			if n >= 64 && n <= len(h.Data) {
+				if d.content == 5 {
+					binary.LittleEndian.PutUint32(h.Data[0:], uint32(n-4))
+					copy(h.Data[4:n], d.quote)
+				} else {
+					idSize := 0
+					if d.content == 4 {
+						idSize = 16
+					}
+					binary.BigEndian.PutUint32(h.Data[0:], uint32(n-4))
+					binary.LittleEndian.PutUint16(h.Data[4:], 1)
+					binary.LittleEndian.PutUint32(h.Data[8:], 1)
+					binary.LittleEndian.PutUint32(h.Data[12:], uint32(n-4))
+					binary.LittleEndian.PutUint32(h.Data[16:], 0)
+					binary.LittleEndian.PutUint32(h.Data[20:], uint32(idSize))
+					binary.LittleEndian.PutUint32(h.Data[24:], uint32(n-28-idSize))
+					copy(h.Data[28+idSize:n], d.quote)
+				}
+			} else {
+				copy(h.Data[:], d.quote)
 			}
 		}
 		h.Status = d.status
@@ -149,7 +179,10 @@ func runC15(r *mc.Run) {
 				for q := range qOutcomes {
 					for st := range statuses {
 						for ol := range outLens {
-							for ct := 0; ct < 3; ct++ {
+							for ct := 0; ct < 6; ct++ {
+								if ct >= 3 && (rd != 1 || rb != 0) {
+									continue // the self-describing contents with one report-data / report pair
+								}
 								combos = append(combos, combo{rd, rep, rb, q, st, ol, ct})
 							}
 						}
